@@ -45,7 +45,7 @@ func runHarness(ld *Loaded, fn *ssa.Function, cfg *RunConfig) (h *HarnessRun, e 
 	e.tier = cfg.Tier
 	budget := 600 * time.Second
 	if cfg.Tier == "thorough" {
-		budget = 1500 * time.Second
+		budget = 3000 * time.Second
 	}
 	e.deadline = time.Now().Add(budget)
 	sol, err := NewSolver(e.tc, cfg.Solver, cfg.TimeoutMs)
